@@ -4,6 +4,8 @@ import (
 	"encoding/json"
 	"fmt"
 	"os"
+	"os/exec"
+	"path/filepath"
 	"sort"
 	"strings"
 	"time"
@@ -196,7 +198,132 @@ func check(prop, tier string) int {
 		// configuration of this repository; the only other one is the gofuzz tag.
 		run(nil, []string{"-tags=gofuzz"}, nil)
 	}
-	return rep.Finish(verifDir(), spec.Explanation, configs, start, nil)
+	var extra map[string]interface{}
+	if tier == "thorough" && os.Getenv("VERIF_NO_SENSITIVITY") == "" {
+		extra = map[string]interface{}{"sensitivity": sensitivity(spec, rep)}
+	}
+	return rep.Finish(verifDir(), spec.Explanation, configs, start, extra)
+}
+
+// sensitivity is the thorough tier's self-test: every seeded change kept under
+// /verif/seeded for this property (a change that breaks the property, compiles
+// and passes the existing suite) is applied to a scratch copy of the current
+// tree, the property's rules are run on the copy, and the report is compared
+// with the report on the real tree. Nothing is executed. The outcome never
+// changes the exit code (a seed that no longer applies to a changed tree, or is
+// no longer reported, says something about the checker, not about the
+// property); it is recorded in the evidence.
+func sensitivity(spec *rules.Spec, base *core.Report) map[string]interface{} {
+	res := map[string]interface{}{"what": "seeded property-breaking changes applied to a scratch copy of the current tree and analysed (no code is run)"}
+	dirs, _ := filepath.Glob(filepath.Join(verifDir(), "seeded", spec.ID+"-m*"))
+	sort.Strings(dirs)
+	baseKeys := base.ViolatedKeys()
+	var tried, killed, skipped []string
+	detail := map[string]interface{}{}
+	for _, d := range dirs {
+		name := filepath.Base(d)
+		patch := filepath.Join(d, "patch.diff")
+		if _, err := os.Stat(patch); err != nil {
+			continue
+		}
+		tmp, err := os.MkdirTemp("", "verif-sens-")
+		if err != nil {
+			skipped = append(skipped, name+": "+err.Error())
+			continue
+		}
+		func() {
+			defer os.RemoveAll(tmp)
+			if err := copyTree(core.RepoDir(), tmp); err != nil {
+				skipped = append(skipped, name+": copy failed: "+err.Error())
+				return
+			}
+			ap := exec.Command("git", "apply", "--unsafe-paths", "--directory="+tmp, patch)
+			ap.Dir = "/"
+			if out, err := ap.CombinedOutput(); err != nil {
+				skipped = append(skipped, name+": does not apply to the current tree: "+firstLine(string(out)))
+				return
+			}
+			p, err := core.Load(tmp, nil, nil)
+			if err != nil {
+				skipped = append(skipped, name+": "+firstLine(err.Error()))
+				return
+			}
+			defer rules.Forget(p)
+			rep := core.NewReport(spec.ID, "thorough")
+			func() {
+				defer func() {
+					if r := recover(); r != nil {
+						rep.Fail("analyzer panic: %v", r)
+					}
+				}()
+				spec.Run(&rules.Ctx{Prog: p, Rep: rep, Tier: "thorough", Primary: true})
+			}()
+			tried = append(tried, name)
+			var newKeys []string
+			for k := range rep.ViolatedKeys() {
+				if !baseKeys[k] {
+					newKeys = append(newKeys, k)
+				}
+			}
+			sort.Strings(newKeys)
+			if len(newKeys) > 0 {
+				killed = append(killed, name)
+				if len(newKeys) > 3 {
+					newKeys = newKeys[:3]
+				}
+				detail[name] = newKeys
+			} else {
+				detail[name] = "not reported by this property's rules (see SEEDS.md: it may be caught by another property's check)"
+			}
+		}()
+	}
+	res["seeds_tried"] = tried
+	res["seeds_reported"] = killed
+	res["seeds_skipped"] = skipped
+	res["reported_constructs"] = detail
+	return res
+}
+
+// copyTree copies the working tree (not .git) into dst.
+func copyTree(src, dst string) error {
+	return filepath.Walk(src, func(p string, info os.FileInfo, err error) error {
+		if err != nil {
+			return err
+		}
+		rel, err := filepath.Rel(src, p)
+		if err != nil {
+			return err
+		}
+		if rel == ".git" {
+			if info.IsDir() {
+				return filepath.SkipDir
+			}
+			return nil
+		}
+		target := filepath.Join(dst, rel)
+		switch {
+		case info.IsDir():
+			return os.MkdirAll(target, 0o755)
+		case info.Mode().IsRegular():
+			b, err := os.ReadFile(p)
+			if err != nil {
+				return err
+			}
+			return os.WriteFile(target, b, 0o644)
+		}
+		return nil
+	})
+}
+
+func firstLine(s string) string {
+	s = strings.TrimSpace(s)
+	if i := strings.Index(s, "\n"); i >= 0 {
+		s = s[:i]
+	}
+	if len(s) > 200 {
+		s = s[:200]
+	}
+	return s
 }
 
 func dumpLocks() {
